@@ -8,17 +8,17 @@ Definition all_cst := [DISCONNECTED; INITIALIZED; CONNECTED].
 Definition all_stage := [SNone; STocs; SParams].
 Definition all_bool := [true; false].
 Definition all_states : list state :=
-  flat_map (fun a => flat_map (fun b => flat_map (fun c => map (fun d => mk a b c d) all_stage) all_bool) all_bool) all_cst.
+  flat_map (fun a => flat_map (fun b => flat_map (fun c => flat_map (fun d => map (fun o => mk a b c d o) all_bool) all_stage) all_bool) all_bool) all_cst.
 Definition all_astates := [A0; AR; AF; AE; AC; AU; ADf; AD].
-Definition all_events := [EOpen true; EOpen false; EPacket; ETocs; EParams; ELinkErr; EClose].
+Definition all_events := [EOpenBegin; EOpenEnd true; EOpenEnd false; EPacket; ETocs; EParams; ELinkErr; EClose].
 Definition all_sync := [SyIdle; SyOpening; SyOpen; SyClosing].
 
 Lemma all_states_complete s : In s all_states.
-Proof. destruct s as [[] [] [] []]; vm_compute; tauto. Qed.
+Proof. destruct s as [[] [] [] [] []]; vm_compute; tauto. Qed.
 Lemma all_astates_complete a : In a all_astates.
 Proof. destruct a; vm_compute; tauto. Qed.
 Lemma all_events_complete e : In e all_events.
-Proof. destruct e as [[]| | | | |]; vm_compute; tauto. Qed.
+Proof. destruct e as [|[]| | | | |]; vm_compute; tauto. Qed.
 Lemma all_sync_complete w : In w all_sync.
 Proof. destruct w; vm_compute; tauto. Qed.
 
@@ -30,13 +30,15 @@ Definition stage_eqb (a b : stage) : bool :=
 
 Definition rel (s : state) (a : astate) : bool :=
   match a with
-  | A0 => cst_eqb (st s) DISCONNECTED && negb (link s)
-  | AR => cst_eqb (st s) INITIALIZED && link s && initcb s && stage_eqb (stg s) SNone
-  | AF => negb (link s) && negb (cst_eqb (st s) CONNECTED)
-  | AE => cst_eqb (st s) CONNECTED && link s && negb (initcb s) && stage_eqb (stg s) SNone
-  | AC => cst_eqb (st s) CONNECTED && link s && negb (initcb s) && stage_eqb (stg s) STocs
-  | AU => cst_eqb (st s) CONNECTED && link s && negb (initcb s) && stage_eqb (stg s) SParams
-  | ADf | AD => cst_eqb (st s) DISCONNECTED && negb (link s)
+  | A0 => cst_eqb (st s) DISCONNECTED && negb (link s) && negb (opening s)
+  | AR => cst_eqb (st s) INITIALIZED &&
+          ((opening s && negb (link s)) ||
+           (negb (opening s) && link s && initcb s && stage_eqb (stg s) SNone))
+  | AF => negb (link s) && ((cst_eqb (st s) INITIALIZED && negb (opening s)) || cst_eqb (st s) DISCONNECTED)
+  | AE => cst_eqb (st s) CONNECTED && link s && negb (initcb s) && stage_eqb (stg s) SNone && negb (opening s)
+  | AC => cst_eqb (st s) CONNECTED && link s && negb (initcb s) && stage_eqb (stg s) STocs && negb (opening s)
+  | AU => cst_eqb (st s) CONNECTED && link s && negb (initcb s) && stage_eqb (stg s) SParams && negb (opening s)
+  | ADf | AD => cst_eqb (st s) DISCONNECTED && negb (link s) && negb (opening s)
   end.
 
 Definition step_ok (s : state) (a : astate) (e : event) : bool :=
@@ -91,15 +93,21 @@ Lemma link_error_fanout s s' o : step s ELinkErr = Some (s', o) ->
   st s' = DISCONNECTED /\ link s' = false /\
   o = match st s with INITIALIZED => [Failed] | CONNECTED => [Disconnected; Lost] | DISCONNECTED => [DiscLinkErr] end.
 Proof.
-  unfold step. destruct (st s) eqn:E, (link s); intros H; try discriminate; injection H as <- <-; auto.
+  unfold step. destruct (st s) eqn:E, (link s), (opening s); cbn; intros H; try discriminate;
+    injection H as <- <-; auto.
 Qed.
 
-Lemma close_fanout s : exists s', step s EClose = Some (s', [Disconnected]) /\ st s' = DISCONNECTED /\ link s' = false.
-Proof. eexists. split; [reflexivity|]. split; reflexivity. Qed.
+Lemma close_fanout s : opening s = false ->
+  exists s', step s EClose = Some (s', [Disconnected]) /\ st s' = DISCONNECTED /\ link s' = false.
+Proof. intros H. unfold step. rewrite H. eexists. split; [reflexivity|]. split; reflexivity. Qed.
 
-Lemma open_fanout s ok s' o : step s (EOpen ok) = Some (s', o) ->
-  o = if ok then [Requested] else [Requested; Failed].
-Proof. unfold step. destruct (link s); [discriminate|]. destruct ok; intros [= <- <-]; reflexivity. Qed.
+Lemma open_fanout s s1 o1 ok s2 o2 :
+  step s EOpenBegin = Some (s1, o1) -> step s1 (EOpenEnd ok) = Some (s2, o2) ->
+  o1 = [Requested] /\ o2 = (if ok then [] else [Failed]) /\ link s2 = ok.
+Proof.
+  destruct s as [a b c d e]. unfold step at 1. cbn. destruct b, e; cbn; intros H1; try discriminate.
+  injection H1 as <- <-. destruct ok; cbn; intros [= <- <-]; auto.
+Qed.
 
 (* a setup callback is produced only by its enabling event, in a connected session *)
 Lemma setup_callbacks_only_when_enabled s e s' o : step s e = Some (s', o) ->
@@ -107,31 +115,36 @@ Lemma setup_callbacks_only_when_enabled s e s' o : step s e = Some (s', o) ->
   (In Connected o -> e = ETocs /\ st s = CONNECTED /\ link s = true) /\
   (In Fully o -> e = EParams /\ st s = CONNECTED /\ stg s = STocs).
 Proof.
-  destruct s as [a b c d]. destruct e as [[]| | | | |]; destruct a, b, c, d; cbn;
+  destruct s as [a b c d o']. destruct e as [|[]| | | | |]; destruct a, b, c, d, o'; cbn;
     intros H; try discriminate; injection H as <- <-; cbn; intuition (try discriminate; auto).
 Qed.
 
 (* ---- the same object can connect again after any disconnect ---- *)
-Lemma reconnect_after_disconnect s : st s = DISCONNECTED -> link s = false ->
-  exists s', run s [EOpen true; EPacket; ETocs; EParams] = Some (s', [Requested; Established; Connected; Fully]).
-Proof. destruct s as [a b c d]. cbn. intros -> ->. eexists. reflexivity. Qed.
+Lemma reconnect_after_disconnect s : st s = DISCONNECTED -> link s = false -> opening s = false ->
+  exists s', run s [EOpenBegin; EOpenEnd true; EPacket; ETocs; EParams] =
+             Some (s', [Requested; Established; Connected; Fully]).
+Proof. destruct s as [a b c d e]. cbn. intros -> -> ->. eexists. reflexivity. Qed.
 
-Lemma disconnect_events_reach_disconnected s e s' o :
-  (e = ELinkErr \/ e = EClose) -> step s e = Some (s', o) -> st s' = DISCONNECTED /\ link s' = false.
+Lemma disconnect_events_reach_disconnected s e s' o : opening s = false ->
+  (e = ELinkErr \/ e = EClose) -> step s e = Some (s', o) ->
+  st s' = DISCONNECTED /\ link s' = false /\ opening s' = false.
 Proof.
-  intros [->| ->] H.
-  - apply link_error_fanout in H. tauto.
-  - cbn in H. injection H as <- _. split; reflexivity.
+  intros Ho [->| ->] H.
+  - destruct s as [a b c d e]. cbn in Ho. subst e. destruct a, b; cbn in H; try discriminate;
+      injection H as <- _; auto.
+  - unfold step in H. rewrite Ho in H. injection H as <- _. auto.
 Qed.
 
 (* ---- SyncCrazyflie: a blocked open_link/close_link is blocked only while the attempt itself is pending ---- *)
 Definition pending (s : state) : bool :=
-  link s && stage_eqb (stg s) SNone && (cst_eqb (st s) INITIALIZED && initcb s || cst_eqb (st s) CONNECTED).
+  (opening s && cst_eqb (st s) INITIALIZED && negb (link s)) ||
+  (negb (opening s) && link s && stage_eqb (stg s) SNone &&
+   (cst_eqb (st s) INITIALIZED && initcb s || cst_eqb (st s) CONNECTED)).
 
 Definition srel (s : state) (w : sync) : bool :=
   match w with
   | SyOpening => pending s
-  | SyOpen => link s && cst_eqb (st s) CONNECTED && negb (stage_eqb (stg s) SNone)
+  | SyOpen => link s && cst_eqb (st s) CONNECTED && negb (stage_eqb (stg s) SNone) && negb (opening s)
   | SyIdle => true
   | SyClosing => true
   end.
@@ -139,7 +152,7 @@ Definition srel (s : state) (w : sync) : bool :=
 Definition sstep_ok (s : state) (w : sync) (e : event) : bool :=
   negb (srel s w) ||
   match e, w with
-  | EOpen _, _ => true                 (* a new open while a sync call is pending is not a SyncCrazyflie usage *)
+  | EOpenBegin, _ => true              (* a new open while a sync call is pending is not a SyncCrazyflie usage *)
   | _, _ => match step s e with
             | None => true
             | Some (s', o) => srel s' (sync_run w o)
@@ -150,7 +163,7 @@ Lemma sstep_ok_all :
   forallb (fun s => forallb (fun w => forallb (sstep_ok s w) all_events) all_sync) all_states = true.
 Proof. vm_compute. reflexivity. Qed.
 
-Definition no_open (e : event) : bool := match e with EOpen _ => false | _ => true end.
+Definition no_open (e : event) : bool := match e with EOpenBegin => false | _ => true end.
 
 Lemma sstep_rel s w e s' o : no_open e = true ->
   srel s w = true -> step s e = Some (s', o) -> srel s' (sync_run w o) = true.
@@ -160,7 +173,7 @@ Proof.
   rewrite forallb_forall in H. specialize (H w (all_sync_complete w)).
   rewrite forallb_forall in H. specialize (H e (all_events_complete e)).
   unfold sstep_ok in H. rewrite Hr in H. cbn [negb orb] in H.
-  destruct e; try discriminate; rewrite Hs in H; exact H.
+  destruct e as [|[]| | | | |]; try discriminate; rewrite Hs in H; exact H.
 Qed.
 
 Lemma sync_run_app w l1 l2 : sync_run w (l1 ++ l2) = sync_run (sync_run w l1) l2.
@@ -181,29 +194,30 @@ Qed.
 (* SyncCrazyflie.open_link on a closed Crazyflie: after the open and ANY further events (no second open),
    if the call is still blocked then the attempt is still pending: link up, not failed, not yet connected,
    not disconnected.  Hence the first link error, close or table completion ends the wait. *)
-Theorem sync_open_blocked_only_while_pending s ok evs s' o :
-  link s = false -> forallb no_open evs = true ->
-  run s (EOpen ok :: evs) = Some (s', o) ->
+Theorem sync_open_blocked_only_while_pending s evs s' o :
+  forallb no_open evs = true ->
+  run s (EOpenBegin :: evs) = Some (s', o) ->
   sync_run SyOpening o = SyOpening -> pending s' = true.
 Proof.
-  intros Hl Hn Hrun Hw. cbn [run] in Hrun.
-  destruct (step s (EOpen ok)) as [[s1 o1]|] eqn:Hs; [|discriminate].
+  intros Hn Hrun Hw. cbn [run] in Hrun.
+  destruct (step s EOpenBegin) as [[s1 o1]|] eqn:Hs; [|discriminate].
   destruct (run s1 evs) as [[s2 o2]|] eqn:Hr2; [|discriminate]. injection Hrun as <- <-.
   rewrite sync_run_app in Hw.
   assert (R1 : srel s1 (sync_run SyOpening o1) = true).
-  { unfold step in Hs. rewrite Hl in Hs. destruct ok; injection Hs as <- <-; reflexivity. }
+  { unfold step in Hs. destruct (link s || opening s); [discriminate|]. injection Hs as <- <-. reflexivity. }
   pose proof (srun_rel evs s1 _ s2 o2 Hn R1 Hr2) as R2. rewrite Hw in R2. exact R2.
 Qed.
 
 (* ... and each terminal event does end it *)
 Lemma pending_ends s e s' o : pending s = true -> step s e = Some (s', o) ->
-  (e = ELinkErr \/ e = EClose \/ (e = ETocs /\ st s = CONNECTED)) ->
+  (e = ELinkErr \/ e = EClose \/ e = EOpenEnd false \/ (e = ETocs /\ st s = CONNECTED)) ->
   sync_run SyOpening o <> SyOpening.
 Proof.
-  destruct s as [a b c d]. intros Hp Hs He.
-  destruct He as [->|[->|[-> Hc]]]; destruct a, b, c, d; cbn in *; try discriminate;
+  destruct s as [a b c d e']. intros Hp Hs He.
+  destruct He as [->|[->|[->|[-> Hc]]]]; destruct a, b, c, d, e'; cbn in *; try discriminate;
     injection Hs as <- <-; cbn; discriminate.
 Qed.
 
-Lemma sync_close_returns s : exists s', step s EClose = Some (s', [Disconnected]) /\ sync_run SyClosing [Disconnected] = SyIdle.
-Proof. eexists. split; reflexivity. Qed.
+Lemma sync_close_returns s : opening s = false ->
+  exists s', step s EClose = Some (s', [Disconnected]) /\ sync_run SyClosing [Disconnected] = SyIdle.
+Proof. intros H. unfold step. rewrite H. eexists. split; reflexivity. Qed.
